@@ -108,7 +108,8 @@ pub fn start_watchdog(limit_ms: u64) {
                 let cur = CURRENT.lock().ok().and_then(|c| c.iter().find(|e| e.0 == w).map(|e| bits::hex(&e.1))).unwrap_or_default();
                 let dir = verif_dir().join("replays").join("C01");
                 let _ = std::fs::create_dir_all(&dir);
-                let p = dir.join("watchdog-input.json");
+                // the dispatcher names a file of its own (several checks may run side by side)
+                let p = std::env::var("VERIF_WATCHDOG_FILE").map(std::path::PathBuf::from).unwrap_or_else(|_| dir.join("watchdog-input.json"));
                 let f64j = |x: f64| if x.is_finite() { json!(x) } else { json!(format!("{x}")) };
                 let (hist, rx, range) = RING[w].lock().map(|r| (r.0.iter().map(|b| bits::hex(b)).collect::<Vec<_>>(), r.1, r.2)).unwrap_or((vec![], (52.0, 4.0), 500.0));
                 let _ = std::fs::write(&p, json!({"kind":"frame","check":"total","hex":cur,"history":hist,"rx_lat":f64j(rx.0),"rx_lon":f64j(rx.1),"range":f64j(range),"note":"worker made no progress; hang suspected"}).to_string());
